@@ -116,7 +116,7 @@ __CPROVER_ensures(1)'''),
         Mutant('leaf_and_instead_of_or', EN, r'if \(overrideStrip == true \|\|\s*m_executionContext->shouldStripSourceNode\(node\) == false\)', 'if (overrideStrip == true &&\n        m_executionContext->shouldStripSourceNode(node) == false)', expect='a text node is written unless'),
         Mutant('dispatch_forces_override', EN, r'(\n            \{\n                const XalanText&    tx =\s*static_cast<const XalanText&>\(node\);\s*)cloneToResultTree\(tx, overrideStrip\);(\s*\}\s*break;)', r'\1cloneToResultTree(tx, true);\2', expect='unchanged'),
     ],
-    mechanisms=['copy-of / copy of source nodes consult shouldStripSourceNode', 'result tree fragments bypass stripping (overrideStrip)'],
+    mechanisms=['copy-of / copy of source nodes consult shouldStripSourceNode', 'result tree fragments bypass stripping (overrideStrip)', 'copying source nodes to the result'],
     assumptions=['the non-text cases of the node dispatcher (elements, attributes, comments, ...) are collapsed to one stub: they do not consult strip declarations',
                  'the two tree walks are checked for the strip discipline of every clone call only (loop invariant "true"); that they visit every descendant exactly once, and terminate, is not proved',
                  'DOM accessors return arbitrary nodes'],
